@@ -127,6 +127,10 @@ def run(ctx):
         if name == 'project':
             for s, v, env in rets:
                 ok = v.kind == 'fac' and v.a[0] == 'project' and v.a[2] == ('var', fi.params[1])
+                if not ok and v.kind == 'fac':
+                    # equalities established on this path (`tuple(attrs) == self.domain.attrs`: the operand already is its own projection)
+                    from ..engines.layout import subst_term
+                    ok = canon(v.a) == canon(subst_term(('project', ('domof', 'self'), ('var', fi.params[1])), env))
                 ctx.ob('result-domain', fi, s, ok,
                        'project must answer in the requested order (outermost reordering by `%s`); got %s'
                        % (fi.params[1], show(v.a) if v.kind == 'fac' else v.kind))
